@@ -302,6 +302,49 @@ pub fn run(ctx: &Ctx) -> Outcome {
                 }
             }
         }
+        // the last blocks of the keystream (flavours whose end is reachable by a byte seek): a string that ends exactly at the
+        // limit, in one call and cut at block-boundary neighbourhoods -- every cutting must succeed and give the same bytes
+        if let Some(endb) = limit.checked_mul(bs as u128) {
+            let par = par_of(cfg);
+            let mut ns = vec![1usize, par, par + 1, 2 * par, 2 * par + 1];
+            ns.sort();
+            ns.dedup();
+            for n in ns {
+                let lz = n * bs;
+                let dz = pattern(seed, 0xC08F, lz);
+                let blk = limit - n as u128;
+                let ks = if d.mode == "belt" { rf::belt_ks(&c, &iv, blk, 0, lz) } else { rf::ctr_ks(&c, &iv, d.w, d.be, blk, 0, lz) };
+                let want = rf::x(&dz, &ks);
+                let pts = boundary_points(bs, lz);
+                let mut cutsets: Vec<Vec<usize>> = vec![vec![]];
+                for (i, &a) in pts.iter().enumerate() {
+                    cutsets.push(vec![a]);
+                    if n <= par + 1 {
+                        for &b in &pts[i + 1..] {
+                            cutsets.push(vec![a, b]);
+                        }
+                    }
+                }
+                for cuts in &cutsets {
+                    rep.case(|| {
+                        let mut st = crate::rec::stream(cfg, d, key, &iv);
+                        ensure!(st.seek(SeekTy::U128, endb - lz as u128) == Some(Ok(())), format!("seek_refused/{}", d.mode), "{}: seek to {} blocks before the end refused", d.ty, n);
+                        let mut out = vec![];
+                        let mut prev = 0;
+                        for (i, &cpt) in cuts.iter().chain(std::iter::once(&lz)).enumerate() {
+                            let mut o = dz[prev..cpt].to_vec();
+                            let kind = [Kind::InPlace, Kind::B2b, Kind::Alias][i % 3];
+                            let inp = o.clone();
+                            ensure!(st.apply(kind, &inp, &mut o).is_ok(), format!("request_refused/{}/at-the-end", d.mode), "{}: a request ending exactly at the keystream limit was refused ({} blocks before the end, pieces cut at {:?}, piece {})", d.ty, n, cuts, i);
+                            out.extend(o);
+                            prev = cpt;
+                        }
+                        ensure!(out == want, format!("output/{}/stream-at-the-end", d.mode), "{}: the last {} blocks of the keystream, pieces cut at {:?}: {} differs from the reference {} (first diff at byte {:?})", d.ty, n, cuts, short(&out), short(&want), first_diff(&out, &want));
+                        Ok(())
+                    });
+                }
+            }
+        }
         rep.finish()
     });
     let mut o = merge(reports);
